@@ -2,6 +2,7 @@ package main
 
 import (
 	"fmt"
+	"go/token"
 	"strings"
 
 	"golang.org/x/tools/go/ssa"
@@ -32,6 +33,7 @@ func init() {
 		c14Watermark(c)
 		c14PruneFilter(c)
 		c14Tail(c)
+		c14FreshWALNumber(c)
 	})
 }
 
@@ -394,4 +396,78 @@ func c14Tail(c *Ctx) {
 		c.und("tail-tolerance", "recoverLatestWALTail", "", "anchor not found")
 	}
 	c.floor("tail-tolerance", 4)
+}
+
+// c14FreshWALNumber: the number given to a newly created WAL file is larger than the number of every log file found on
+// disk (running maximum of log.Num+1), so creating it can never truncate a surviving file.
+func c14FreshWALNumber(c *Ctx) {
+	p := c.P
+	f := p.Func("consensus/walstore", "", "nextWALNum")
+	if f == nil {
+		c.und("fresh-wal-number", "nextWALNum", "", "anchor not found")
+		return
+	}
+	c.saw(qname(f))
+	ok := false
+	why := "the result is not a running maximum over the logs' numbers"
+	for _, ret := range returnsOf(f) {
+		ph, isPhi := ret.Results[0].(*ssa.Phi)
+		if !isPhi {
+			why = "the result is " + term(ret.Results[0]) + ", not a running maximum over the logs' numbers"
+			continue
+		}
+		for _, e := range ph.Edges { // next = max(next, log.Num+1)
+			if call, isCall := e.(*ssa.Call); isCall {
+				if bi, isBi := call.Call.Value.(*ssa.Builtin); isBi && bi.Name() == "max" {
+					hasPhi, hasNum := false, false
+					for _, a := range call.Call.Args {
+						if a == ssa.Value(ph) {
+							hasPhi = true
+						}
+						if strings.Contains(term(a), ".Num + 1") {
+							hasNum = true
+						}
+					}
+					if hasPhi && hasNum {
+						ok = true
+					}
+				}
+			}
+		}
+		for i, e := range ph.Edges {
+			b, isB := e.(*ssa.BinOp)
+			if !isB || b.Op != token.ADD {
+				continue
+			}
+			k, isK := constUint(b.Y)
+			if !isK || k != 1 || !strings.HasSuffix(term(b.X), ".Num") {
+				continue
+			}
+			// the edge is taken only under e > φ
+			pred := ph.Block().Preds[i]
+			for _, fct := range factsAtBlock(pred) {
+				if cb, isC := fct.Cond.(*ssa.BinOp); isC && fct.Pos {
+					if (cb.Op == token.GTR && cb.X == ssa.Value(b) && cb.Y == ssa.Value(ph)) || (cb.Op == token.LSS && cb.Y == ssa.Value(b) && cb.X == ssa.Value(ph)) {
+						ok = true
+					}
+				}
+			}
+		}
+	}
+	c.check(ok, "fresh-wal-number", "nextWALNum", p.Pos(fnPos(f)), "max over all found logs of (log.Num + 1)", "the next WAL number is not derived from the largest existing log number ("+why+"): after a cleanup that removed a prefix of the files the new writer's number collides with a surviving file and creating it truncates flushed entries")
+	// the writer advances its number after each successful create
+	if ew := wsFunc(p, "walWriter", "ensureWriter"); ew != nil {
+		cr := findSite(ew, "Create")
+		adv := false
+		allInstrs(ew, func(in ssa.Instruction) {
+			if st, isSt := in.(*ssa.Store); isSt {
+				if fa, isFa := st.Addr.(*ssa.FieldAddr); isFa && fieldName(fa.X.Type(), fa.Field) == "nextWALNum" && strings.Contains(term(st.Val), "nextWALNum + 1") {
+					if cr != nil && dominatesInstr(cr.Instr, in) {
+						adv = true
+					}
+				}
+			}
+		})
+		c.check(cr != nil && strings.HasSuffix(term(cr.Args()[len(cr.Args())-2]), "nextWALNum") || adv, "fresh-wal-number", "ensureWriter", p.Pos(fnPos(ew)), "creates the file numbered nextWALNum and advances the number", "ensureWriter no longer creates the file at nextWALNum / advances it")
+	}
 }
